@@ -6,8 +6,8 @@ Property theorems only (proofs in Lemmas/Merge*.lean).  They are statements abou
 to the real code by the correspondence check of harness/c14.go (`arsh unm|chain|merge`).
 
 All statements are for EVERY type of the modelled universe (`GoType.wf`: distinct struct field
-names, no `[]uint8`/`[N]uint8`), EVERY pair/chain of trees without repeated member names (the
-default decoder rejects the others, C08) and both values of the one option that matters
+names, no `[]uint8`/`[N]uint8`), EVERY pair/chain of trees (a successful call implies that the
+tree has no repeated member names, `success_dupFree`) and both values of the one option that matters
 (`UnmarshalArrayFromAnyLength`); there is no bound on depth or size.  The value relation of the
 merge law is plain equality of model values, which is stronger than the equality "as finite maps,
 nil ≠ empty" that the property asks for (model maps are association lists in insertion order, and
@@ -24,10 +24,14 @@ open JsonV JsonV.Spec JsonV.Model JsonV.Lemmas.Merge
 both calls succeed, gives exactly the value that unmarshaling `merge j1 j2` into a zero value gives
 (and that call succeeds). -/
 theorem merge_law (o : UOpts) (T : GoType) (hwf : T.wf = true) (j1 j2 : JTree) (v1 v2 : GoVal)
-    (hd1 : j1.dupFree = true) (hd2 : j2.dupFree = true)
     (h1 : unm o T j1 T.zero = .ok v1) (h2 : unm o T j2 v1 = .ok v2) :
     unm o T (JTree.merge j1 j2) T.zero = .ok v2 :=
-  merge_law_unm o T hwf j1 j2 v1 v2 hd1 hd2 h1 h2
+  merge_law_unm' o T hwf j1 j2 v1 v2 h1 h2
+
+/-- A successful call has met no repeated member name anywhere in its input (the decoder checks
+skipped values too), which is why `merge_law` needs no such hypothesis. -/
+theorem success_dupFree (o : UOpts) (T : GoType) (j : JTree) (prior v : GoVal)
+    (h : unm o T j prior = .ok v) : j.dupFree = true := unm_dupFree o T j prior v h
 
 /-- The merged tree is again free of repeated names (so the law can be iterated). -/
 theorem merge_dupFree (a b : JTree) (ha : a.dupFree = true) (hb : b.dupFree = true) :
@@ -71,7 +75,7 @@ example : Ex.T.wf = true ∧ Ex.j1.dupFree = true ∧ Ex.j2.dupFree = true ∧
 /-- **Chain law.**  `k` successive successful calls starting from the zero value leave what one call
 with the left-folded merge of the `k` trees leaves (`k = 0`: the zero value and `null`). -/
 theorem chain_law (o : UOpts) (T : GoType) (hwf : T.wf = true) (js : List JTree) (v : GoVal)
-    (hd : ∀ j ∈ js, j.dupFree = true) (h : unmChain o T js T.zero = .ok v) :
+    (h : unmChain o T js T.zero = .ok v) :
     unm o T (JTree.mergeAll js) T.zero = .ok v := by
   cases js with
   | nil =>
@@ -84,8 +88,7 @@ theorem chain_law (o : UOpts) (T : GoType) (hwf : T.wf = true) (js : List JTree)
     | error e => simp [hj] at h
     | ok v0 =>
       simp only [hj] at h
-      exact chain_fold o T hwf r j v0 v (hd j List.mem_cons_self)
-        (fun x hx => hd x (List.mem_cons_of_mem _ hx)) hj h
+      exact chain_fold o T hwf r j v0 v hj h
 
 example : unmChain {} Ex.T [Ex.j1, Ex.j2] Ex.T.zero = .ok Ex.v2 := by rfl
 
